@@ -286,9 +286,10 @@ def ev(n: ast.AST, env: dict[str, Any], funcs: dict[str, ast.FunctionDef] | None
                 # a function of another analysed module: evaluated with that module's own functions and globals
                 f_other, funcs_other = funcs[n.func.id]
                 return call(f_other, args, kws, funcs_other, depth + 1)
-        if isinstance(n.func, ast.Call) or (isinstance(n.func, ast.Name) and callable(env.get(n.func.id)) and isinstance(env.get(n.func.id), types.FunctionType)):
+        if isinstance(n.func, ast.Call) or (isinstance(n.func, ast.Name) and callable(env.get(n.func.id))
+                                            and isinstance(env.get(n.func.id), (types.FunctionType, types.BuiltinFunctionType, types.MethodType))):
             f = ev(n.func, env, funcs, depth)
-            if isinstance(f, (types.FunctionType, types.MethodType)):
+            if isinstance(f, (types.FunctionType, types.MethodType, types.BuiltinFunctionType)):
                 return f(*args, **kws)
         if isinstance(n.func, ast.Attribute):
             recv = ev(n.func.value, env, funcs, depth)
@@ -392,6 +393,14 @@ def run(stmts: list[ast.stmt], env: dict[str, Any], funcs: dict[str, ast.Functio
             pass
         elif isinstance(s, ast.Expr) and isinstance(s.value, ast.Constant):
             pass
+        elif isinstance(s, ast.Expr) and isinstance(s.value, ast.Yield):
+            # a generator is evaluated eagerly: the values it yields are collected (bounded by the loop bound)
+            out_y = env.setdefault("$yielded", [])
+            out_y.append(ev(s.value.value, env, funcs, depth) if s.value.value is not None else None)
+            if len(out_y) > MAX_ITER:
+                raise Unsupported("generator yields more values than the iteration bound")
+        elif isinstance(s, ast.Expr) and isinstance(s.value, ast.YieldFrom):
+            env.setdefault("$yielded", []).extend(list(ev(s.value.value, env, funcs, depth)))
         elif isinstance(s, ast.Try):
             try:
                 try:
@@ -449,8 +458,11 @@ def call(fn: ast.FunctionDef, args: list[Any], kws: dict[str, Any] | None = None
     body = list(fn.body)
     if body and isinstance(body[0], ast.Expr) and isinstance(body[0].value, ast.Constant) and isinstance(body[0].value.value, str):
         body = body[1:]
+    is_gen = getattr(fn, "_pvs_is_gen", None)
+    if is_gen is None:
+        is_gen = fn._pvs_is_gen = any(isinstance(x, (ast.Yield, ast.YieldFrom)) for st in body for x in ast.walk(st))
     try:
         run(body, env, funcs, depth)
     except _Return as r:
-        return r.value
-    return None
+        return env.get("$yielded", []) if is_gen else r.value
+    return env.get("$yielded", []) if is_gen else None
